@@ -432,6 +432,17 @@ Inductive attrs_ok (i : nat) (path : list nat) : spec -> list (text * value) -> 
                        attrs_ok i path ((k, sv) :: m) ((k, v) :: a)
 | AO_skip k sv m a : may_skip sv -> attrs_ok i path m a -> attrs_ok i path ((k, sv) :: m) a.
 
+(* the node's data object: class = the merged ":factory" (DictWrapper by default),
+   content = a dict aligned with the merged spec, after the merged ":callback" *)
+Definition data_ok (m : spec) (i : nat) (path : list nat) (t : gt) : Prop :=
+  g_fac t = fac_of (lookup K_factory m) /\
+  exists a0, attrs_ok i path (strip m) a0 /\
+             g_attrs t = apply_cb (cb_of (lookup K_callback m)) a0.
+
+Lemma data_ok_nocb m i path t :
+  cb_of (lookup K_callback m) = CbNone -> data_ok m i path t -> attrs_ok i path (strip m) (g_attrs t).
+Proof. intros E [_ [a0 [Ha Hg]]]. rewrite E in Hg. cbn [apply_cb] in Hg. rewrite Hg. exact Ha. Qed.
+
 Section Spec.
   Variable Df : sdef.
   Let types := d_types Df.
@@ -447,7 +458,7 @@ Section Spec.
                  exists n, count_ok (lookup K_count (mspec e)) n /\
                    Forall2 (fun (i : nat) (t : gt) =>
                               g_type t = fst e /\
-                              attrs_ok i (path ++ [i]) (strip (mspec e)) (g_attrs t) /\
+                              data_ok (mspec e) i (path ++ [i]) t /\
                               (mem (fst e) rels = true -> Conf (fst e) (path ++ [i]) (g_ch t)) /\
                               (mem (fst e) rels = false -> g_ch t = []))
                            (seq 1 n) g)
@@ -524,22 +535,26 @@ Section Spec.
     pose proof (resolve_count_pos (lookup K_count (mspec e)) s1) as Hpos.
     destruct (resolve_count (lookup K_count (mspec e)) s1) as [cnt s2]. cbn [fst] in *.
     exists cnt. split; [exact Hc|].
-    pose proof (smap_Forall2 (make_node Df (make_tree Df fuel) (fst e) (strip (mspec e)) (dotted path)) (seq 1 cnt) s2) as HG.
+    pose proof (smap_Forall2 (make_node Df (make_tree Df fuel) (fst e) (cb_of (lookup K_callback (mspec e)))
+                                        (fac_of (lookup K_factory (mspec e))) (strip (mspec e)) (dotted path)) (seq 1 cnt) s2) as HG.
     eapply Forall2_imp; [|exact HG]. cbn beta. clear HG.
     intros i t [Hi [s3 ->]].
     apply in_seq in Hi.
     unfold make_node. fold rels. rewrite hier_dotted.
     pose proof (resolve_dict_ok i (path ++ [i]) (strip (mspec e)) s3 (strip_wf _ Hmw)) as Ha.
     destruct (resolve_dict (strip (mspec e)) i (dotted (path ++ [i])) s3) as [data s4]. cbn [fst] in Ha.
+    assert (Hd : forall ch, data_ok (mspec e) i (path ++ [i])
+                   (G (fst e) (fac_of (lookup K_factory (mspec e))) (apply_cb (cb_of (lookup K_callback (mspec e))) data) ch)).
+    { intros ch. split; [reflexivity|]. exists data. split; [exact Ha | reflexivity]. }
     destruct (mem (fst e) rels) eqn:Hm.
     - assert (Hlt : (rk (fst e) < fuel)%nat).
       { assert (rk (fst e) < rk ptype)%nat; [|lia].
         apply (Hrk ptype cs e Hl Hin); [apply Hpos; lia | exact Hm]. }
       pose proof (IH (fst e) (path ++ [i]) s4 Hlt Hm) as Hch.
-      destruct (make_tree Df fuel (fst e) (dotted (path ++ [i])) s4) as [ch s5]. cbn [fst g_type g_attrs g_ch] in *.
-      refine (conj eq_refl (conj Ha (conj (fun _ => Hch) _))). discriminate.
-    - cbn [fst g_type g_attrs g_ch].
-      refine (conj eq_refl (conj Ha (conj _ (fun _ => eq_refl)))). discriminate.
+      destruct (make_tree Df fuel (fst e) (dotted (path ++ [i])) s4) as [ch s5]. cbn [fst g_type g_ch] in *.
+      refine (conj eq_refl (conj (Hd ch) (conj (fun _ => Hch) _))). discriminate.
+    - cbn [fst g_type g_ch].
+      refine (conj eq_refl (conj (Hd []) (conj _ (fun _ => eq_refl)))). discriminate.
   Qed.
 
   (* fuel sufficiency: any two fuels above the rank give the same tree and the same rest stream *)
@@ -577,7 +592,7 @@ Section Consequences.
     exists cs e i,
       lookup ptype rels = Some cs /\ In e cs /\ (1 <= i)%nat /\
       g_type t = fst e /\
-      attrs_ok i (path ++ [i]) (strip (mspec Df e)) (g_attrs t) /\
+      data_ok (mspec Df e) i (path ++ [i]) t /\
       (mem (fst e) rels = true -> Conf Df (fst e) (path ++ [i]) (g_ch t)) /\
       (mem (fst e) rels = false -> g_ch t = []).
 
@@ -680,7 +695,7 @@ Section Consequences.
     count_ok (lookup K_count (mspec Df e)) (length g) /\
     forall k t, nth_error g k = Some t ->
       g_type t = fst e /\
-      attrs_ok (S k) (path ++ [S k]) (strip (mspec Df e)) (g_attrs t) /\
+      data_ok (mspec Df e) (S k) (path ++ [S k]) t /\
       (mem (fst e) rels = true -> Conf Df (fst e) (path ++ [S k]) (g_ch t)) /\
       (mem (fst e) rels = false -> g_ch t = []).
   Proof.
@@ -760,6 +775,16 @@ Proof.
       destruct (text_eqb k' k) eqn:E1; [|reflexivity].
       apply text_eqb_eq in E1. apply text_eqb_eq in E2. subst. rewrite text_eqb_refl in E0. discriminate.
 Qed.
+
+(* what a callback does to the dict, key by key *)
+Lemma lookup_apply_cb k cb a :
+  lookup k (apply_cb cb a) =
+  match cb with
+  | CbNone => lookup k a
+  | CbSet k' z => if text_eqb k k' then Some (VInt z) else lookup k a
+  | CbDel k' => if text_eqb k' k then None else lookup k a
+  end.
+Proof. destruct cb as [|k' z|k']; cbn [apply_cb]; [reflexivity | apply lookup_upd | apply lookup_remove_key]. Qed.
 
 Definition special (k : text) : bool :=
   text_eqb K_count k || text_eqb K_callback k || text_eqb K_factory k.
@@ -922,6 +947,26 @@ Definition def_wfb (Df : sdef) : bool :=
   forallb (fun e => spec_wfb (snd e)) (d_types Df) &&
   forallb (fun e => forallb (fun c => spec_wfb (snd c)) (snd e)) (d_rels Df).
 
+(* the constructors' asserts give well-formedness (SampleRandomizer's counts are only
+   checked by random.sample, when a value is generated) and a probability in [0,1] *)
+Lemma ctor_ok_wf r : ctor_ok r = true ->
+  (0 <= prob_of r)%Q /\ (prob_of r <= 1)%Q /\ (match r with RSample _ _ _ => True | _ => rnd_wf r end).
+Proof.
+  assert (P : forall p, Qle_bool 0 p && Qle_bool p 1 = true -> (0 <= p)%Q /\ (p <= 1)%Q).
+  { intros p H. apply andb_true_iff in H. destruct H as [H1 H2]. split; apply Qle_bool_iff; assumption. }
+  destruct r as [lo hi p none | lo hi p none | mn days stamp p | v p | vals counts p | p];
+    cbn [ctor_ok prob_of rnd_wf]; intros H.
+  - apply andb_true_iff in H. destruct H as [H H']. destruct (P p H) as [P0 P1].
+    refine (conj P0 (conj P1 _)). apply Z.ltb_lt. exact H'.
+  - apply andb_true_iff in H. destruct H as [H H']. destruct (P p H) as [P0 P1].
+    refine (conj P0 (conj P1 _)). apply Qnot_le_lt. intros Hle. apply Qle_bool_iff in Hle. rewrite Hle in H'. discriminate.
+  - apply andb_true_iff in H. destruct H as [H H']. destruct (P p H) as [P0 P1].
+    refine (conj P0 (conj P1 _)). apply Z.ltb_lt. exact H'.
+  - destruct (P p H) as [P0 P1]. exact (conj P0 (conj P1 Logic.I)).
+  - destruct (P p H) as [P0 P1]. exact (conj P0 (conj P1 Logic.I)).
+  - destruct (P p H) as [P0 P1]. exact (conj P0 (conj P1 Logic.I)).
+Qed.
+
 Lemma rnd_wfb_ok r : rnd_wfb r = true -> rnd_wf r.
 Proof.
   destruct r as [lo hi p none | lo hi p none | mn days stamp p | v p | vals counts p | p];
@@ -974,7 +1019,7 @@ Qed.
 Definition TA : text := [97].
 Definition Dcyc : sdef := SD None [] [(K_root, [(TA, [])]); (TA, [(TA, [])])].
 
-Fixpoint chain (n : nat) : list gt := match n with O => [] | S k => [G TA [] (chain k)] end.
+Fixpoint chain (n : nat) : list gt := match n with O => [] | S k => [G TA 0 [] (chain k)] end.
 
 Lemma cyc_chain : forall fuel pt prefix s, pt = K_root \/ pt = TA ->
   make_tree Dcyc fuel pt prefix s = (chain fuel, s).
@@ -984,7 +1029,7 @@ Proof.
   cbn [make_tree]. rewrite Hl. cbn [smap]. unfold make_group.
   change (merge_specs (fst (TA, [])) (snd (TA, [])) (d_types Dcyc)) with (@nil (text * sval)).
   cbn [lookup resolve_count seq smap]. unfold make_node.
-  change (strip []) with (@nil (text * sval)). cbn [resolve_dict fst].
+  change (strip []) with (@nil (text * sval)). cbn [resolve_dict fst cb_of fac_of apply_cb].
   change (mem TA (d_rels Dcyc)) with true. cbv iota.
   rewrite (IH TA (hier prefix 1) s (or_intror eq_refl)). reflexivity.
 Qed.
